@@ -18,6 +18,7 @@ RULE = (
     "all component sequences of length <= 3 over a 7-symbol alphabet. Non-trivial path = >= 2 effective components and it reaches a "
     "node other than the start or fails at a component other than the first; distinct_nontrivial counts cases containing such a path."
     " Also: names that are ints or str subclasses with their own __str__; resolvers built with keywords, positionally, with only non-default options and by a subclass configuring itself after the base constructor; paths with more components than the interpreter's recursion limit (zig-zag on two nodes; chains that deep)."
+    " Also: unreprable nodes (relaxed misses), tuple names, foreign-separator priming, trees mixing separators, first components glued to the root's name."
 )
 ASSUMPTIONS = [
     "names never contain a character of the class separator and are never '', '.', '..' (not addressable by construction)",
